@@ -110,19 +110,18 @@ Print Assumptions C16_csv_fixpoint_refuted.
 
 (* C16_dup.  Full statement: dup c agrees with c on every covered field, on the local device /
    addresses / socket functions, and on the ordered server list.  Proved for chan_wf channels
-   with plain-form servers; the two side conditions on d0 = init (save c) hold by construction
-   but are not yet derived from the model (see Config/Dup_proofs.v).  Refuted instances:
-   C16_save_init_timeout_refuted (timeout above INT_MAX ms) and C16_csv_fixpoint_refuted. *)
-Theorem C16_dup_partial : forall nf g e src o m d0 d,
+   whose servers use the plain text form (one port for UDP and TCP, premise addr_good per
+   address), are pairwise different, and respect ARES_FLAG_PRIMARY.  Missing: servers with
+   differing ports (dns:// form).  Refuted instances: C16_save_init_timeout_refuted (timeout
+   above INT_MAX ms) and C16_csv_fixpoint_refuted (interface name the URI form rejects). *)
+Theorem C16_dup_partial : forall nf g e src d,
   chan_wf src -> (has (c_optmask src) B_DOMAINS = true -> c_domains src <> []) ->
-  save_options g src = Ok (o, m) -> init_options nf e o m = Ok d0 ->
   Forall (server_ok nf (c_ifs src)) (c_servers src) ->
   (forall cu ct, distinct cu ct (c_servers src)) ->
-  Forall no_stray_iface (c_servers d0) ->
-  (Z.testbit (c_flags d0) 1 = true -> (List.length (c_servers src) <= 1)%nat) ->
+  (Z.testbit (c_flags src) 1 = true -> (List.length (c_servers src) <= 1)%nat) ->
   dup nf g e src = Ok d ->
   covered_same src d /\
   c_ldev d = c_ldev src /\ c_lip4 d = c_lip4 src /\ c_lip6 d = c_lip6 src /\ c_ifs d = c_ifs src /\
-  (has m B_SERVERS = true -> c_servers d = c_servers src).
-Proof. exact dup_effective_partial. Qed.
+  (has (c_optmask src) B_SERVERS = true -> c_servers d = c_servers src).
+Proof. exact dup_effective. Qed.
 Print Assumptions C16_dup_partial.
